@@ -126,13 +126,16 @@ class Target:
     """One binary: list of (source, extra_flags) TUs + link flags; content-addressed."""
 
     def __init__(self, name, sources, flavour="plain", defines=(), compiler=GXX, libs=("-lquadmath",),
-                 extra_flags=(), extra_deps=(), include_gen=True):
+                 extra_flags=(), extra_deps=(), include_gen=True, opt=None):
         self.name = name
         self.sources = [s if isinstance(s, tuple) else (s, ()) for s in sources]
         self.flavour = flavour
         self.compiler = compiler
         base = PLAIN_FLAGS if flavour == "plain" else SAN_FLAGS
         self.flags = list(base) + list(extra_flags) + ["-D%s" % d for d in defines]
+        if opt and flavour == "plain":
+            # heavy template enumerations compile much faster at -O0; IEEE semantics are the same
+            self.flags = [opt if f == "-O1" else f for f in self.flags]
         self.libs = list(libs)
         self.extra_deps = list(extra_deps)
         self.include_gen = include_gen
